@@ -98,6 +98,7 @@ type verifC27Run struct {
 	raw    json.RawMessage
 	nexec  int
 	nbad   int
+	index  int
 	layout string
 }
 
@@ -186,6 +187,9 @@ func (r *verifC27Run) eval(st *verifC27Store, expr string, start, end, step int6
 
 func verifC27Match(got float64, want verifC27V) bool {
 	if want[1] == 0 {
+		if want[2] == 2 {
+			return math.IsNaN(got) // the specification says: no sample here
+		}
 		return true // not constrained
 	}
 	if math.IsNaN(got) || math.IsInf(got, 0) {
@@ -204,7 +208,7 @@ func verifC27Match(got float64, want verifC27V) bool {
 
 func verifC27Known(vs []verifC27V) bool {
 	for _, v := range vs {
-		if v[1] != 0 {
+		if v[1] != 0 || v[2] == 2 {
 			return true
 		}
 	}
@@ -258,7 +262,7 @@ func (r *verifC27Run) check(sig, expr string, step int64, got []verifC27Series, 
 		sort.Slice(secs, func(i, j int) bool { return secs[i] < secs[j] })
 		for _, sec := range secs {
 			want := w.at[sec]
-			if want[1] == 0 {
+			if want[1] == 0 && want[2] != 2 {
 				continue
 			}
 			gv := math.NaN()
@@ -307,6 +311,29 @@ func (r *verifC27Run) raw1s() {
 				args := []string{"m"}
 				if verifC27Agg5[op] {
 					args = append(args, "+m") // m: reduced by rule #0, +m: evaluated by the engine
+					// an explicit storage function seeds the rule (reducible or not, depending on the pair);
+					// with one point per series and second sum/avg/min/max of a series are its value, count is 1
+					what := []string{"sum", "avg", "min", "max", "count"}[(r.index+oi+len(g.G))%5]
+					opw := op
+					if what == "count" {
+						opw = map[string]string{"sum": "count", "count": "count", "min": "group", "max": "group", "avg": "group"}[op]
+					}
+					var wantsW []verifC27Want
+					for _, gr := range g.Groups {
+						w := verifC27Want{key: gr.Key, at: map[int64]verifC27V{}}
+						for _, o := range c.Agg[gr.Ix-1].Ops {
+							if o.Op == opw {
+								for t, v := range o.V {
+									w.at[sec(t+1)] = v
+								}
+							}
+						}
+						wantsW = append(wantsW, w)
+					}
+					expr := verifC27AggExpr(op, g.G, fmt.Sprintf(`m{__what__="%s"}`, what))
+					got, err := r.eval(st, expr, t0, end, 1)
+					r.check("agg:"+op+":what="+what, expr, 1, got, err, wantsW)
+					r.res.Seen("agg:" + op + ":what=" + what)
 				}
 				for _, arg := range args {
 					expr := verifC27AggExpr(op, g.G, arg)
@@ -534,6 +561,32 @@ func (r *verifC27Run) coarse() {
 						r.check(sig, expr, step, got, err, wants)
 						r.res.Seen(sig + ":" + g.G)
 					}
+					// every other pair agg(f_over_time(m[5s])): whatever the engine pushes down (rule #1 for f,
+					// nothing more according to the rule table), the result is the two-level definition
+					for fi, f := range red.OT6 {
+						if f == agg {
+							continue
+						}
+						var wants []verifC27Want
+						for _, gr := range g.Groups {
+							vs := red.D2[gr.Ix-1][ai][fi]
+							w := verifC27Want{key: gr.Key, at: map[int64]verifC27V{}}
+							for b, v := range vs {
+								if f == "count" && !red.Full2[gr.Ix-1][b] {
+									continue
+								}
+								w.at[bucketAt(step, b)] = v
+							}
+							if verifC27Known(vs) {
+								wants = append(wants, w)
+							}
+						}
+						expr := verifC27AggExpr(agg, g.G, verifC27OTExpr(f, "m[5s]"))
+						got, err := r.eval(st, expr, tb, end, step)
+						sig := fmt.Sprintf("two2:%s:%s:coarse", agg, f)
+						r.check(sig, expr, step, got, err, wants)
+						r.res.Seen(sig)
+					}
 					continue
 				}
 				// 1 s step: every pair against the two-level definition on the raw points
@@ -594,7 +647,7 @@ func TestVerifC27(t *testing.T) {
 		if err := json.Unmarshal(line, &cs); err != nil || len(cs) != 1 {
 			t.Fatalf("bad case line: %v", err)
 		}
-		r := &verifC27Run{t: t, res: res, ng: ng, c: &cs[0]}
+		r := &verifC27Run{t: t, res: res, ng: ng, c: &cs[0], index: res.Replayed}
 		r.raw1s()
 		r.coarse()
 		res.Replayed++
